@@ -149,8 +149,11 @@ def run(ctx):
             tail = [s.key() for s in cov] == [s.key() for s in body[:2]]
         ctx.ob("C12.b", f"{BASE}.tobytes", tail, "body = data ‖ message id ‖ crc8(data ‖ message id)", func=f"{BASE}.tobytes", file=ct.module.rel,
                construct="body tail", detail={"body": show_layout(body)[:300]}, fail=f"body layout is {show_layout(body)[:200]}")
-        n_id = [n for n in ast.walk(ct.node) if isinstance(n, ast.Call) and isinstance(n.func, ast.Attribute) and n.func.attr == "_next_message_id"]
-        in_loop = any(isinstance(x, (ast.For, ast.While)) for x in ast.walk(ct.node))
+        from ..helpers import ancestor_chains
+        id_sites = ancestor_chains(prog, ct, lambda f_, n: isinstance(n.func, ast.Attribute) and n.func.attr == "_next_message_id")      # (through helpers of tobytes)
+        n_id = [n for _f, n, chains in id_sites for _ch in (chains or [[]])]
+        in_loop = any(isinstance(x, (ast.For, ast.While)) for _f, _n, chains in id_sites for ch in chains for x, _fld in ch) or \
+            any(isinstance(x, (ast.For, ast.While)) for x in ast.walk(ct.node))
         if nm_fn is None:
             n_id = [n for n in ast.walk(ct.node) if isinstance(n, (ast.AugAssign, ast.Assign)) and any(isinstance(x, ast.Attribute) and x.attr == "_message_id" and isinstance(x.ctx, ast.Store)
                                                                                                     for x in ast.walk(n))]
@@ -186,6 +189,17 @@ def run(ctx):
             masked = t[0] == "bin" and t[1] == "&" and is_const(t[3]) and t[3][1] == 0xFF and (t[2] == newv) or \
                 (t[0] == "bin" and t[1] == "%" and is_const(t[3], 256) and t[2] == newv)
             ok = step_ok and masked
+            if not ok and shared:
+                # the counter itself kept in 0..255: counter' = (counter + 1) & 0xFF and the id is counter' (the same ids, one step modulo 256)
+                plus1 = (("bin", "+", old, ("const", 1)), ("bin", "+", ("const", 1), old))
+                if isinstance(init, int):
+                    plus1 += (("bin", "+", ("const", init), ("const", 1)), ("bin", "+", ("const", 1), ("const", init)), ("const", init + 1))
+
+                def wrapped(x):
+                    x = strip(x)
+                    return x[0] == "bin" and ((x[1] == "&" and is_const(x[3], 0xFF)) or (x[1] == "%" and is_const(x[3], 256))) and strip(x[2]) in plus1
+                ok = wrapped(newv) and (strip(t) == strip(newv) or wrapped(t) or
+                                        (strip(t)[0] == "bin" and strip(strip(t)[2]) == strip(newv) and is_const(strip(t)[3]) and (strip(t)[1], strip(t)[3][1]) in (("&", 0xFF), ("%", 256))))
         ctx.ob("C12.d", f"{BASE}._next_message_id", ok, "counter' = counter + 1 and the emitted id is counter' & 0xFF (one step modulo 256, indefinitely)",
                func=f"{BASE}._next_message_id", file=nm.module.rel, node=node, detail={"returns": show(t), "counter": show(rst.env.get(cnt_key[0])) if cnt_key else None},
                fail="the message id does not advance by exactly one modulo 256 (step, mask or counter store changed)")
@@ -372,7 +386,7 @@ def run(ctx):
     # ---------------------------------------------------------------- C12.e CRC
     crcmod = prog.module("msmart.crc8")
     tbl = prog.fold_or_none(prog.module_assigns(crcmod).get("_CRC8_854_TABLE"), crcmod)
-    tbl = list(tbl) if isinstance(tbl, (tuple, list)) else tbl          # (a literal or a table computed at import from constants)
+    tbl = list(tbl) if isinstance(tbl, (tuple, list, bytes, bytearray)) else tbl          # (a literal or a table computed at import from constants; bytes hold the same entries)
     tbl = list(tbl) if isinstance(tbl, tuple) else tbl          # (a tuple holds the same table)
     ctx.ob("C12.e", "msmart.crc8", tbl == dallas_table(), "_CRC8_854_TABLE equals the table generated from the Dallas/Maxim polynomial (reflected 0x8C)",
            func="msmart.crc8", file=crcmod.rel, construct="_CRC8_854_TABLE", fail="_CRC8_854_TABLE differs from the CRC-8/MAXIM table")
